@@ -1,7 +1,7 @@
 """Runs every translator (coq/gen/*.v are regenerated from the snapshot of /repo)."""
-import gen_tables, gen_funcs
+import gen_tables, gen_funcs, gen_consts
 
 
 def generate_all(snap):
-    out = {"tables": gen_tables.generate(snap), "prng": gen_funcs.gen_prng(snap), "blocking": gen_funcs.gen_blocking(snap)}
+    out = {"tables": gen_tables.generate(snap), "prng": gen_funcs.gen_prng(snap), "blocking": gen_funcs.gen_blocking(snap), "consts": gen_consts.generate(snap)}
     return out
